@@ -446,8 +446,8 @@ def run(fx, rep, tier):
             rep.obls.append(o)
 
 
-def r9_sources(facts, rep):
-    rep.rule("C16-R9", "the source of a constant resolves: Db::get_source(id) looks the id up in the id -> index map and returns "
+def r9_sources(facts, rep, rule="C16-R9"):
+    rep.rule(rule, "the source of a constant resolves: Db::get_source(id) looks the id up in the id -> index map and returns "
                        "that element of the source list (effect summary); the map is built when the sources are decoded, one "
                        "entry (source.id -> its index) per source in list order (summary of the Deserialize impl over two "
                        "symbolic sources).  A search that presumes an order of the list (the shipped list is not sorted by id) "
@@ -458,17 +458,17 @@ def r9_sources(facts, rep):
     from ..absint.stdmodels import Seq
     gs = facts.fn("db::Db::get_source")
     if gs is None:
-        rep.ob("C16-R9", "anchor:db::Db::get_source", False, "Db::get_source not found")
+        rep.ob(rule, "anchor:db::Db::get_source", False, "Db::get_source not found")
         return
     sadt = facts.adt("db::Sources")
     dadt = facts.adt("db::Db")
     if sadt is None or dadt is None:
-        rep.ob("C16-R9", "anchor:db::Sources", False, "struct Sources / Db not found")
+        rep.ob(rule, "anchor:db::Sources", False, "struct Sources / Db not found")
         return
     sf = sadt["variants"][0]["fields"]
     i_vec = [i for i, f in enumerate(sf) if f["ty"].startswith("std::vec::Vec<db::Source")]
     i_map = [i for i, f in enumerate(sf) if "HashMap<u64" in f["ty"] or "BTreeMap<u64" in f["ty"]]
-    if not rep.ob("C16-R9", "anchor:Sources-fields", len(i_vec) == 1 and len(i_map) == 1,
+    if not rep.ob(rule, "anchor:Sources-fields", len(i_vec) == 1 and len(i_map) == 1,
                   "Sources holds the list of sources and a map from id to index (%s)" % [f["ty"][:40] for f in sf]):
         return
 
@@ -500,7 +500,7 @@ def r9_sources(facts, rep):
     try:
         outs = it.run(gs, [dref, Sym("id")], st)
     except core.Undecided as e:
-        rep.ob("C16-R9", "get_source", False, "undecided: %s" % e, gs.site())
+        rep.ob(rule, "get_source", False, "undecided: %s" % e, gs.site())
         outs = []
     bad = []
     n_some = 0
@@ -517,11 +517,11 @@ def r9_sources(facts, rep):
             elif v.field(0) != T("elem", Sym("srcvec"), Sym("index")):
                 bad.append("the source returned is %r, not the element at the index the map gave" % (v.field(0),))
     if outs:
-        rep.ob("C16-R9", "get_source", not bad and n_some >= 1, "; ".join(bad[:2]) if bad else
+        rep.ob(rule, "get_source", not bad and n_some >= 1, "; ".join(bad[:2]) if bad else
                "get_source(id) = sources[map[id]] on %d path(s)" % n_some, gs.site())
     # the map is built from the list
     de = [b for b in facts.all if b.promoted < 0 and b.path.startswith("<db::Sources as ") and b.path.endswith("Deserialize<'de>>::deserialize")]
-    if not rep.ob("C16-R9", "anchor:Sources-deserialize", len(de) == 1, "the Deserialize impl of Sources found (%d)" % len(de)):
+    if not rep.ob(rule, "anchor:Sources-deserialize", len(de) == 1, "the Deserialize impl of Sources found (%d)" % len(de)):
         return
     b = de[0]
     sadt2 = facts.adt("db::Source")
@@ -547,7 +547,7 @@ def r9_sources(facts, rep):
     try:
         outs2 = it2.run(b, [Sym("deserializer")], {})
     except core.Undecided as e:
-        rep.ob("C16-R9", "map-built-from-list", False, "undecided: %s" % e, b.site())
+        rep.ob(rule, "map-built-from-list", False, "undecided: %s" % e, b.site())
         return
     good = 0
     bad2 = []
@@ -562,5 +562,5 @@ def r9_sources(facts, rep):
             good += 1
         else:
             bad2.append("the map receives %r (specified %r); the list kept is %s" % (ins, want, "the decoded one" if vec_ok else "another one"))
-    rep.ob("C16-R9", "map-built-from-list", good >= 1 and not bad2, "; ".join(bad2[:2]) if bad2 else
+    rep.ob(rule, "map-built-from-list", good >= 1 and not bad2, "; ".join(bad2[:2]) if bad2 else
            "decoding two sources inserts (s0.id -> 0), (s1.id -> 1) and keeps the list", b.site())
